@@ -57,9 +57,9 @@ class NoProgress(BaseException):
 
 
 class _Watch:
-    """Wall-clock watchdog for one run (main thread only): if no simulator step
-    happens between two alarms HANG_S apart, the run is stuck in a loop that
-    never reaches a primitive (the step cap cannot see that)."""
+    """CPU-time watchdog for one run (main thread only): if no simulator step
+    happens between two alarms HANG_S of CPU time apart, the run is stuck in a
+    loop that never reaches a primitive (the step cap cannot see that)."""
 
     def __init__(self, ctx):
         self.ctx = ctx
@@ -67,8 +67,9 @@ class _Watch:
         self.armed = False
         import threading
         if threading.current_thread() is threading.main_thread() and hasattr(signal, "setitimer"):
-            self.old = signal.signal(signal.SIGALRM, self._fire)
-            signal.setitimer(signal.ITIMER_REAL, HANG_S, HANG_S)
+            # CPU time of this process, not wall time: a starved process is not a hung one
+            self.old = signal.signal(signal.SIGVTALRM, self._fire)
+            signal.setitimer(signal.ITIMER_VIRTUAL, HANG_S, HANG_S)
             self.armed = True
 
     def _fire(self, signum, frame):
@@ -79,8 +80,8 @@ class _Watch:
 
     def stop(self):
         if self.armed:
-            signal.setitimer(signal.ITIMER_REAL, 0)
-            signal.signal(signal.SIGALRM, self.old)
+            signal.setitimer(signal.ITIMER_VIRTUAL, 0)
+            signal.signal(signal.SIGVTALRM, self.old)
 
 
 def run_one(prop, prefix=(), seed=0, replay=None, trace=False, params=None):
@@ -106,7 +107,7 @@ def run_one(prop, prefix=(), seed=0, replay=None, trace=False, params=None):
             key = "%s/hang/no-simulator-primitive-reached-for-%ds" % (prop.ID, int(HANG_S))
             ctx.log("VIOLATION", key)
             return Outcome("violation", key, "the call under test did not return and reached no simulator primitive (clock, queue, lock, bus) "
-                           "for %d s of wall time: an endless loop in the code under test. Last events: %s" % (int(HANG_S), (ctx.trace or [])[-5:]),
+                           "for %d s of CPU time: an endless loop in the code under test. Last events: %s" % (int(HANG_S), (ctx.trace or [])[-5:]),
                            tape.values, ctx.digest(), ctx)
         finally:
             watch.stop()
